@@ -164,6 +164,25 @@ def main(a):
                         violations.append({"unit": u.name, "engine": "verus", "failed": unmatched, "cex": None,
                                            "kind": "proved", "verus_output": r.get("output_tail", "")})
 
+    # ---------------------------------------------------------------- escalation
+    # A Verus unit that lost an anchor inside function F (the statement a hint / declared rewrite is attached to was edited)
+    # cannot judge F. Every Kani harness of this property that has F under contract is then run as well, whatever its tier:
+    # on the unchanged tree this never triggers; on an edited tree it trades minutes for a verdict with a counterexample.
+    import re as _re
+    escalated = []
+    lost_fns = set()
+    for uname, why in undecided:
+        for m in _re.finditer(r"lost anchor[^;]*?\bin fn ([A-Za-z0-9_]+)|lost anchor: loop \d+ of fn ([A-Za-z0-9_]+)", why or ""):
+            lost_fns.add(m.group(1) or m.group(2))
+    if lost_fns and not a.only:
+        have = {h.name for h in harnesses}
+        for h in kani_engine.list_harnesses():
+            if pid in h.props and h.name not in have and h.tier != "extended" and any(f.split("::")[-1] in lost_fns for f in h.funcs):
+                harnesses.append(h)
+                escalated.append(h.name)
+        if escalated:
+            log("[escalation] Verus lost an anchor in %s: also running %s" % (sorted(lost_fns), escalated))
+
     # ---------------------------------------------------------------- Kani
     if harnesses:
         engines_used.add("kani-cbmc")
@@ -293,6 +312,7 @@ def main(a):
         "known_findings_open": [{"id": k.get("id"), "what": k["what"]} for k in open_known],
         "known_findings_hit_this_run": sorted({k.get("id") for k, _ in known_hits}),
         "injection": inject_summary,
+        "escalated_harnesses": escalated,
         "exhaustive": False,
         "repo": repo_fingerprint(),
     }
